@@ -95,20 +95,21 @@ class AbstractWrappingDispatcher(AbstractDispatcher):
         func = self.wrap_func(func_proxy)
         self.wrapped_funcs[func_proxy] = func
         keys = self.get_keys_for_func_proxy(func_proxy)
+        # active keeps the proxies (not the wrapped functions, different
+        # proxies may share the same function) in order of registration.
         for key in keys:
             try:
-                self.active[key].append(func)
+                self.active[key].append(func_proxy)
             except KeyError:
-                self.active[key] = [func]
+                self.active[key] = [func_proxy]
         if not self.registered:
             self.register()
 
     def remove(self, func_proxy):
         mdl.NotificationCenter.unregister(func_proxy, 'function', self)
         keys = self.get_keys_for_func_proxy(func_proxy)
-        func = self.wrapped_funcs[func_proxy]
         for key in keys:
-            self.active[key].remove(func)
+            self.active[key].remove(func_proxy)
             if not self.active[key]:
                 del self.active[key]
         del self.wrapped_funcs[func_proxy]
@@ -116,13 +117,18 @@ class AbstractWrappingDispatcher(AbstractDispatcher):
             self.unregister()
 
     def update_func_for_func_proxy(self, func_proxy):
-        func = self.wrap_func(func_proxy)
-        old_func = self.wrapped_funcs[func_proxy]
-        self.wrapped_funcs[func_proxy] = func
-        keys = self.get_keys_for_func_proxy(func_proxy)
-        for key in keys:
-            i = self.active[key].index(old_func)
-            self.active[key][i] = func
+        self.wrapped_funcs[func_proxy] = self.wrap_func(func_proxy)
+
+    def active_funcs(self, key):
+        '''
+        Iterator over the wrapped functions registered for key, in order of
+        registration. Proxies removed by a function evaluated before their
+        turn (one_shot, free or disable from a responder) are left out.
+        '''
+        for func_proxy in self.active.get(key, ())[:]:
+            func = self.wrapped_funcs.get(func_proxy)
+            if func is not None:
+                yield func
 
     @abstractmethod
     def wrap_func(self, func_proxy):
@@ -373,10 +379,8 @@ class OscMessageDispatcher(AbstractWrappingDispatcher):
         return [func_proxy.path]
 
     def __call__(self, msg, time, addr, recv_port):
-        if msg[0] in self.active:
-            # Responders may remove themselves when called (one_shot).
-            for func in self.active[msg[0]][:]:
-                fn.value(func, msg, time, addr, recv_port)
+        for func in self.active_funcs(msg[0]):
+            fn.value(func, msg, time, addr, recv_port)
 
     def register(self):
         _libsc3.main.add_osc_recv_func(self) # thisProcess.addOSCRecvFunc(this)
@@ -627,9 +631,8 @@ class MidiMessageDispatcher(AbstractWrappingDispatcher):
 
     def __call__(self, data, midi_in):
         mt = data['type']
-        if mt in self.active:
-            for func in self.active[mt]:
-                fn.value(func, data, midi_in)
+        for func in self.active_funcs(mt):
+            fn.value(func, data, midi_in)
 
     def register(self):
         _libsc3.main._midi_interface.add_recv_func(self)
